@@ -173,6 +173,27 @@ func Space(quick bool, yield func(t *regexref.Expr, family string)) (maxFull, ma
 	return maxSize, maxSize + 1
 }
 
+// DeepSpace (thorough tiers, run last): deeper trees over smaller pools - every tree with 5 operator nodes over
+// {a, ., b} x {?, *, {2}} (0.39M) and every tree with 5 and 6 operator nodes over {a, b} x {?, *} (0.05M + 0.46M).
+func DeepSpace(yield func(t *regexref.Expr, family string)) {
+	small := regexref.Pools{Atoms: []*regexref.Atom{regexref.Lit('a'), regexref.Dot(), regexref.Lit('b')}, Quants: []*regexref.Quant{regexref.MkQuant("?", false), regexref.MkQuant("*", false), regexref.MkQuant("{2}", false)}}
+	for n, level := range regexref.Trees(small, 5) {
+		if n == 5 {
+			for _, t := range level {
+				yield(t, fmt.Sprintf("trees_small_size%d", n))
+			}
+		}
+	}
+	tiny := regexref.Pools{Atoms: []*regexref.Atom{regexref.Lit('a'), regexref.Lit('b')}, Quants: []*regexref.Quant{regexref.MkQuant("?", false), regexref.MkQuant("*", false)}}
+	for n, level := range regexref.Trees(tiny, 6) {
+		if n >= 5 {
+			for _, t := range level {
+				yield(t, fmt.Sprintf("trees_tiny_size%d", n))
+			}
+		}
+	}
+}
+
 // bracketTokens are the pieces bracket contents are assembled from: plain characters, the characters with a role inside
 // brackets (`-`, `^`, `\`), escapes (also as potential range ends), a hexadecimal character and a class.
 var bracketTokens = []string{"a", "c", "z", "9", "-", `\\`, `\.`, `\]`, `\`, ".", "$", "^", `\x41`, `\d`}
